@@ -36,6 +36,15 @@ func c01Profile() Profile {
 		p.Ann = append(p.Ann, annChoice{"redirect-from", []string{"old.local"}})
 	}
 	p.Classes = os.Getenv("C01_NOCLASS") == ""
+	authURLs := []string{"http://10.0.0.9:8080/auth", "http://10.0.0.10/check", "svc://s2:8000", "svc://s1:80", "svc://s3:9090", "svc://s9:80"}
+	p.Bundles = []annBundle{
+		{Name: "basic-auth", Keys: []annChoice{{"auth-type", []string{"basic"}}, {"auth-secret", []string{"pw", "pw", "missing"}}}},
+		{Name: "auth-url", Keys: []annChoice{{"auth-url", authURLs}}},
+		{Name: "bluegreen", Keys: []annChoice{{"blue-green-deploy", []string{"group=blue=1,group=green=3"}}}},
+		{Name: "server-id", Keys: []annChoice{{"assign-backend-server-id", []string{"true"}}, {"backend-server-naming", []string{"pod", "ip"}}}},
+		{Name: "tcp", Keys: []annChoice{{"tcp-service-port", []string{"7000", "7001"}}}, Root: true},
+	}
+	p.BundlePct = 20
 	p.Avoid = []avoidRule{{Sig: sigDefBackJoins, Pred: gainsDefaultBackend}}
 	return p
 }
